@@ -10,7 +10,13 @@ Preds(e) ==
   LET c == e.ev = "call" /\ e.ok IN {
    P("C11", "SameSessionId", c /\ first # "", e.sid = first),
    P("C11", "VersionsDistinct", c, \A x \in calls : x[3] # e.vrel),
-   P("C11", "RealTimeOrder", c, \A x \in calls : x[2] < e.start => x[3] < e.vrel)
+   P("C11", "RealTimeOrder", c, \A x \in calls : x[2] < e.start => x[3] < e.vrel),
+   \* burst: many goroutines stamping descriptions against one origin at once; the driver reports how many
+   \* versions were handed out, how many different ones, how many session ids, and whether each caller saw
+   \* its own versions increase
+   P("C11", "BurstVersionsDistinct", e.ev = "burst", e.distinct = e.n),
+   P("C11", "BurstSameSessionId", e.ev = "burst", e.sessionIds = 1),
+   P("C11", "BurstIncreasingPerCaller", e.ev = "burst", e.perCallerIncreasing)
   }
 
 Init == pos = 1 /\ viol = {} /\ cnt = EmptyCount /\ calls = {} /\ first = ""
